@@ -866,4 +866,168 @@ theorem end_to_end (mx : Nat) (hmx : 0 < mx) (ds : List Desc) (hnd : (ds.map (·
   rw [this, hr, hproj d hd, reasm_flatMap_packetize mx hmx]
 
 
+/-! ### fairness of the send routine -/
+
+/-- a pending channel that is picked is served: `sendPacketMsg` with `pick = c.id` emits a packet
+of channel `c` whenever `c` still owes the wire something -/
+theorem step_pick_serves (s : Sender) (t : Trace) (h : SInv s t) (c : SChan) (hc : c ∈ s.chans)
+    (hne : rest s.maxSize c ≠ []) :
+    ∃ p, (sendPacketMsg s c.id).2 = some p ∧ p.chId = (c.id : Int) := by
+  have h1 := pending_inv s t h
+  obtain ⟨hn, _⟩ := h1
+  simp only at hn
+  unfold sendPacketMsg
+  simp only
+  generalize hcs : (s.chans.map fun c => (isSendPending c).1) = cs at *
+  -- the image of c after the isSendPending pass is pending
+  have hc' : (isSendPending c).1 ∈ cs := by rw [← hcs]; exact List.mem_map.mpr ⟨c, hc, rfl⟩
+  obtain ⟨hid, _, hnone⟩ := isSendPending_props s.maxSize c
+  have hsome : (isSendPending c).1.sending.isSome = true := by
+    cases hh : (isSendPending c).1.sending with
+    | some b => rfl
+    | none => exact absurd (hnone hh) hne
+  have hpend : (isSendPending c).1 ∈ cs.filter (·.sending.isSome) := List.mem_filter.mpr ⟨hc', hsome⟩
+  cases hp : cs.filter (·.sending.isSome) with
+  | nil => rw [hp] at hpend; cases hpend
+  | cons c0 pend' =>
+    simp only
+    have hany : (c0 :: pend').any (·.id = c.id) = true := by
+      rw [← hp]
+      exact List.any_eq_true.mpr ⟨_, hpend, by simp [hid]⟩
+    rw [if_pos hany]
+    have hf : cs.find? (·.id = c.id) = some (isSendPending c).1 := by
+      cases hfind : cs.find? (·.id = c.id) with
+      | none =>
+        have := List.find?_eq_none.mp hfind _ hc'
+        simp [hid] at this
+      | some y =>
+        have hym := List.mem_of_find?_eq_some hfind
+        have hyid : y.id = c.id := by simpa using List.find?_some hfind
+        rw [eq_of_id cs hn y hym _ hc' (by omega)]
+    rw [hf]
+    simp only
+    obtain ⟨g1, _, _⟩ := nextPacketMsg_gen s.maxSize (isSendPending c).1
+    exact ⟨_, rfl, by rw [g1, hid]⟩
+
+
+/-- how often the send routine's choice falls on channel `id` in an op sequence -/
+def picksOf (id : Nat) : List SOp → Nat
+  | [] => 0
+  | .step p :: ops => (if p = id then 1 else 0) + picksOf id ops
+  | .send _ _ :: ops => picksOf id ops
+
+theorem prefix_of_append {α : Type} (a b L m : List α) (h : a ++ b = L ++ m) (hl : L.length ≤ a.length) :
+    ∃ e, a = L ++ e := by
+  rcases List.append_eq_append_iff.mp h with ⟨a', h1, _⟩ | ⟨c', h1, _⟩
+  · have : a'.length = 0 := by
+      have := congrArg List.length h1; simp at this; omega
+    have : a' = [] := List.eq_nil_of_length_eq_zero this
+    subst this
+    exact ⟨[], by simpa using h1.symm⟩
+  · exact ⟨c', h1⟩
+
+/-- one op only appends to the wire and to the accepted log -/
+theorem runOp_extends (s : Sender) (t : Trace) (op : SOp) (id : Nat) :
+    (∃ ew, proj id (runOp s t op).2.wire = proj id t.wire ++ ew) ∧
+    (∃ ea, delivered id (runOp s t op).2.acc = delivered id t.acc ++ ea) := by
+  cases op with
+  | send ch m =>
+    simp only [runOp]
+    split
+    · exact ⟨⟨[], by simp⟩, ⟨_, delivered_append id ch m t.acc⟩⟩
+    · exact ⟨⟨[], by simp⟩, ⟨[], by simp⟩⟩
+  | step pick =>
+    simp only [runOp]
+    split
+    · rename_i p _
+      exact ⟨⟨_, proj_append id p t.wire⟩, ⟨[], by simp⟩⟩
+    · exact ⟨⟨[], by simp⟩, ⟨[], by simp⟩⟩
+
+theorem fair_core (ids : List Nat) (id : Nat) (L : List (Bool × Bytes)) (mx : Nat) (hmx : 0 < mx) :
+    ∀ (ops : List SOp) (s : Sender) (t : Trace), s.maxSize = mx → SInv s t → WInv ids s t → id ∈ ids →
+      (∃ more, (delivered id t.acc).flatMap (packetize mx) = L ++ more) →
+      L.length ≤ (proj id t.wire).length + picksOf id ops →
+      L.length ≤ (proj id (runOps s t ops).2.wire).length ∧
+      (∃ more, (delivered id (runOps s t ops).2.acc).flatMap (packetize mx) = L ++ more) ∧
+      SInv (runOps s t ops).1 (runOps s t ops).2 ∧ (runOps s t ops).1.maxSize = mx ∧
+      WInv ids (runOps s t ops).1 (runOps s t ops).2 := by
+  intro ops
+  induction ops with
+  | nil =>
+    intro s t hm hS hW _ hacc hlen
+    simp only [picksOf, Nat.add_zero] at hlen
+    exact ⟨hlen, hacc, hS, hm, hW⟩
+  | cons op ops ih =>
+    intro s t hm hS hW hid hacc hlen
+    simp only [runOps]
+    have hstep : SInv (runOp s t op).1 (runOp s t op).2 ∧ (runOp s t op).1.maxSize = s.maxSize := by
+      cases op with
+      | send ch m => exact trySend_inv s t ch m hS
+      | step pick => exact sendPacketMsg_inv s t pick (by omega) hS
+    have hW' := runOp_winv ids s t op hW
+    obtain ⟨⟨ew, hew⟩, ⟨ea, hea⟩⟩ := runOp_extends s t op id
+    obtain ⟨more, hmore⟩ := hacc
+    have hacc' : ∃ more', (delivered id (runOp s t op).2.acc).flatMap (packetize mx) = L ++ more' :=
+      ⟨more ++ ea.flatMap (packetize mx), by rw [hea, List.flatMap_append, hmore, List.append_assoc]⟩
+    apply ih _ _ (by rw [hstep.2, hm]) hstep.1 hW' hid hacc'
+    -- the length bookkeeping
+    cases op with
+    | send ch m =>
+      simp only [picksOf] at hlen
+      rw [hew, List.length_append]; omega
+    | step pick =>
+      simp only [picksOf] at hlen
+      by_cases hp : pick = id
+      · subst hp
+        simp only [if_true] at hlen
+        by_cases hdone : L.length ≤ (proj pick t.wire).length
+        · rw [hew, List.length_append]; omega
+        · -- the channel still owes part of L: it is served
+          have hin : pick ∈ s.chans.map (·.id) := by rw [hW.1]; exact hid
+          obtain ⟨c, hc, hcid⟩ := List.mem_map.mp hin
+          have hinv := hS.2 c hc
+          rw [hcid, hm, hmore] at hinv
+          have hne : rest s.maxSize c ≠ [] := by
+            intro hnil
+            rw [hm] at hnil
+            rw [hnil, List.append_nil] at hinv
+            have := congrArg List.length hinv
+            simp at this; omega
+          obtain ⟨p, hp1, hp2⟩ := step_pick_serves s t hS c hc hne
+          rw [hcid] at hp1 hp2
+          have : proj pick (runOp s t (.step pick)).2.wire = proj pick t.wire ++ [(p.eof, p.data)] := by
+            simp only [runOp, hp1]
+            rw [proj_append, if_pos hp2]
+          rw [this, List.length_append]; simp; omega
+      · simp only [hp, if_false, Nat.zero_add] at hlen
+        rw [hew, List.length_append]; omega
+
+
+/-- every message accepted on channel `c` before `ops2` is completely on the wire after `ops2`,
+provided the send routine's choice falls on `c` at least as often as `c` owed packets -/
+theorem fair_pick_transmits_lemma (mx : Nat) (hmx : 0 < mx) (ds : List Desc) (hnd : (ds.map (·.id)).Nodup)
+    (ops1 ops2 : List SOp) (c : SChan)
+    (hc : c ∈ (runOps (Sender.new mx ds) {} ops1).1.chans)
+    (hfair : (rest mx c).length ≤ picksOf c.id ops2) :
+    ∃ extra, proj c.id (runOps (runOps (Sender.new mx ds) {} ops1).1 (runOps (Sender.new mx ds) {} ops1).2 ops2).2.wire =
+      (delivered c.id (runOps (Sender.new mx ds) {} ops1).2.acc).flatMap (packetize mx) ++ extra := by
+  obtain ⟨hs0, hw0⟩ := new_inv mx ds hnd
+  obtain ⟨hS, hW, hM⟩ := runOps_inv (ds.map (·.id)) ops1 (Sender.new mx ds) {} hmx hs0 hw0
+  generalize runOps (Sender.new mx ds) {} ops1 = st1 at *
+  have hm : st1.1.maxSize = mx := hM
+  have hinv := hS.2 c hc
+  rw [hm] at hinv
+  have hid : c.id ∈ ds.map (·.id) := by rw [← hW.1]; exact List.mem_map.mpr ⟨c, hc, rfl⟩
+  have hlen : ((delivered c.id st1.2.acc).flatMap (packetize mx)).length ≤
+      (proj c.id st1.2.wire).length + picksOf c.id ops2 := by
+    rw [← hinv, List.length_append]; omega
+  obtain ⟨h1, ⟨more, h2⟩, h3, h4, h5⟩ := fair_core (ds.map (·.id)) c.id _ mx hmx ops2 st1.1 st1.2 hm hS hW hid
+    ⟨[], by simp⟩ hlen
+  generalize runOps st1.1 st1.2 ops2 = st2 at *
+  have hin : c.id ∈ st2.1.chans.map (·.id) := by rw [h5.1]; exact hid
+  obtain ⟨c2, hc2, hc2id⟩ := List.mem_map.mp hin
+  have hinv2 := h3.2 c2 hc2
+  rw [hc2id, h4, h2] at hinv2
+  exact prefix_of_append _ _ _ _ hinv2 h1
+
 end Tmv.MConn
